@@ -82,13 +82,14 @@ def run_spline(ctx):
     SplineStub.jf = jf
     SplineStub.instances = []
     eq = object.__new__(E.Equilibrium)
-    Rg = numpy.array([1.0, 1.5, 2.0])
-    Zg = numpy.array([-1.0, 0.0, 1.0, 2.0])
+    # the four extents are pairwise different, so a mixed-up bound cannot hide
+    Rg = numpy.array([1.0, 1.5, 2.5])
+    Zg = numpy.array([-1.25, 0.0, 1.0, 3.0])
     data = numpy.arange(12.0).reshape(3, 4)
     with patched((E.interpolate, "RectBivariateSpline", SplineStub)):
         E.Equilibrium.magneticFunctionsFromGrid(eq, Rg, Zg, data, "spline")
         R, Z = p.R, p.Z
-        ctx.assume(And(R >= 1.0, R <= 2.0, Z >= -1.0, Z <= 2.0))  # inside the domain: clip is the identity
+        ctx.assume(And(R >= 1.0, R <= 2.5, Z >= -1.25, Z <= 3.0))  # inside the domain: clip is the identity
         gm = p.pR * p.pR + p.pZ * p.pZ
         ctx.assume(gm > 0)
         out = dict(psi=eq.psi(R, Z), f_R=eq.f_R(R, Z), f_Z=eq.f_Z(R, Z), Bp_R=eq.Bp_R(R, Z), Bp_Z=eq.Bp_Z(R, Z), RR=eq.d2psidR2(R, Z), ZZ=eq.d2psidZ2(R, Z), RZ=eq.d2psidRdZ(R, Z))
@@ -117,14 +118,14 @@ def run_spline_mla(ctx):
     SplineStub.jf = jf
     SplineStub.instances = []
     eq = object.__new__(E.Equilibrium)
-    Rg = numpy.array([1.0, 1.5, 2.0])
-    Zg = numpy.array([-1.0, 0.0, 1.0])
+    Rg = numpy.array([1.0, 1.5, 2.5])
+    Zg = numpy.array([-1.25, 0.0, 3.0])
     MLA = mk.mla_cls()
     Rm, Zm = MLA(1, 1), MLA(1, 1)
     for l in locs:
         getattr(Rm, l)[...] = jf.points[l].R
         getattr(Zm, l)[...] = jf.points[l].Z
-        ctx.assume(And(jf.points[l].R >= 1.0, jf.points[l].R <= 2.0, jf.points[l].Z >= -1.0, jf.points[l].Z <= 1.0))
+        ctx.assume(And(jf.points[l].R >= 1.0, jf.points[l].R <= 2.5, jf.points[l].Z >= -1.25, jf.points[l].Z <= 3.0))
         ctx.assume(jf.points[l].pR * jf.points[l].pR + jf.points[l].pZ * jf.points[l].pZ > 0)
     with patched((E.interpolate, "RectBivariateSpline", SplineStub)):
         E.Equilibrium.magneticFunctionsFromGrid(eq, Rg, Zg, numpy.zeros((3, 3)), "spline")
